@@ -1,7 +1,11 @@
 package main
 
 import (
+	"encoding/json"
+	"fmt"
 	"go/ast"
+	"os"
+	"path/filepath"
 	"strings"
 )
 
@@ -105,8 +109,10 @@ func (x *Ex) genApply(body *LeanFile) {
 }
 
 // bodyStmts emits the top-level statements of a function as collapsed source text: a cheap,
-// exact fingerprint of short orchestration functions whose *shape* is a proof premise.
-func (x *Ex) bodyStmts(body *LeanFile, rel, recv, fn, leanName string) {
+// exact fingerprint of short orchestration functions whose *shape* is a proof premise. When an
+// expectation expect/bodies/<leanName>.json exists, `<leanName>Expected` is emitted as well and
+// the difference is recorded for the given properties.
+func (x *Ex) bodyStmts(body *LeanFile, rel, recv, fn, leanName string, pids ...string) {
 	fd := x.funcDecl(rel, recv, fn)
 	var items []string
 	if fd == nil {
@@ -117,4 +123,21 @@ func (x *Ex) bodyStmts(body *LeanFile, rel, recv, fn, leanName string) {
 		}
 	}
 	body.def(rel+"."+recv+"."+fn+": top-level statements", "def "+leanName+" : List String :=\n  ["+joinLean(items)+"]")
+	if out := os.Getenv("VERIF_DUMP_INVENTORY"); out != "" {
+		os.MkdirAll(filepath.Join(out, "bodies"), 0o755)
+		jb, _ := json.MarshalIndent(items, "", " ")
+		os.WriteFile(filepath.Join(out, "bodies", leanName+".json"), jb, 0o644)
+	}
+	b, err := os.ReadFile(filepath.Join(x.expect, "bodies", leanName+".json"))
+	if err != nil {
+		return
+	}
+	var exp []string
+	json.Unmarshal(b, &exp)
+	body.def("expectation go/extract/expect/bodies/"+leanName+".json", "def "+leanName+"Expected : List String :=\n  ["+joinLean(exp)+"]")
+	if strings.Join(exp, "\x00") != strings.Join(items, "\x00") {
+		for _, p := range pids {
+			x.invDiffs[p] = append(x.invDiffs[p], fmt.Sprintf("%s.%s.%s: statements differ from the expectation (%s)", rel, recv, fn, leanName))
+		}
+	}
 }
